@@ -653,8 +653,13 @@ def b4_lazy_complete(d):
     if 'P' not in acts and tr:
         return 'observations %s although the future was never polled' % tr[:5]
     m = d['model'] or []
-    if any(t == 'R:ok' or t.startswith('R:err') for t in m) and not any(t == 'R:ok' or t.startswith('R:err') for t in tr):
+    done = lambda t: t == 'R:ok' or t.startswith('R:err')
+    if any(done(t) for t in m) and not any(done(t) for t in tr):
         return 'the future does not complete under this wake-up order (the machine does)'
+    polls = lambda l: sum(1 for t in l[:next((i for i, t in enumerate(l) if done(t)), len(l))] if t.startswith('R:'))
+    if any(done(t) for t in m) and polls(tr) > polls(m):
+        return ('the future needs %d polls to complete under this wake-up order, the machine %d: a poll returned Pending although every branch could complete '
+                '(no pending point outstanding, nobody holds the waker)' % (polls(tr) + 1, polls(m) + 1))
     return b4_barrier(d)
 
 
@@ -888,7 +893,7 @@ def run_property(pid, P, rng, tier, seed, escalate=False, only_B=False):
             rep['witnesses'].append(f)
     if P.get('nest'):
         import nest
-        r = nest.run(tier, which=(P['nest'] if P['nest'] in ('opts', 'asyncpanic') else 'nest'))
+        r = nest.run(tier, which=(P['nest'] if P['nest'] in ('opts', 'asyncpanic', 'names', 'pairs') else 'nest'))
         rep['B_cases'] += r['cases']
         rep['b4_distinct'] = rep.get('b4_distinct', 0) + r['cases']
         rep['families']['B:nest'] = dict(r['dist'], failures=len(r['failures']), rejected=len(r['rejected']))
@@ -906,8 +911,18 @@ def run_property(pid, P, rng, tier, seed, escalate=False, only_B=False):
         for f in r['failures'] + r['rejected']:
             rep['B_diffs'].append({'family': 'nocost', 'macro': f['macro'], 'text': f['dsl'], 'code': -1, 'expected': '0 allocations / compiles and runs', 'observed': f['why']})
             rep['witnesses'].append(f)
+    r4 = None
     if P.get('B4'):
-        r4 = run_B4(pid, P, seed, tier)
+        try:
+            r4 = run_B4(pid, P, seed, tier)
+        except RuntimeError as ex:
+            if 'build failed' not in str(ex):
+                raise
+            # the generated programs compile on the tree the harness was validated on: the real macros no longer accept them
+            msg = re.sub(r'\s+', ' ', str(ex))[-700:]
+            rep['B_diffs'].append({'family': 'B4:async', 'macro': '(async macros)', 'text': '(generated gate-future programs, harness/asyncrt/src/cases.rs)', 'code': -1,
+                                   'expected': 'the programs of correspondence B4 compile', 'observed': 'cargo build failed: ' + msg})
+    if r4 is not None:
         rep['B_cases'] += r4['runs']
         rep['families']['B4:async'] = {'programs': r4['programs'], 'runs': r4['runs'], 'agree': r4['agree'], 'completed': r4['runs_completed'],
                                        'macros': r4['distribution']['macro'], 'branches': r4['distribution']['branches'],
